@@ -329,6 +329,11 @@ structure Row where
 /-- `_pack_rgb` (io.py:79-96) on one row -/
 def packRgb (r g b : Int) : Int := r + g * 256 + b * 65536
 
+/-- `_pack_rgb` BEFORE the fix `8ec49dcc`: the shifts `2 ** [0, 8, 16]` and the dot product were computed in
+    the table's own dtype; for an unsigned dtype with `m = 2^bits` values everything wraps modulo `m`
+    (uint8: `2**8` and `2**16` are 0, the packed value is just R) -/
+def packRgbOrig (m : Nat) (r g b : Nat) : Nat := (r + g * (256 % m) + b * (65536 % m)) % m
+
 /-- NumPy / Python integer indexing with negative wrap-around -/
 def indexPy {α} (l : List α) (i : Int) : Except Err α :=
   let j : Int := if i < 0 then i + l.length else i
